@@ -7,4 +7,4 @@ const hookEnabled = false
 func setStepLimit(n int64)     {}
 func vmSteps() int64           { return 0 }
 func isBudgetPanic(r any) bool { return false }
-func abortRun()                 {}
+func abortRun()                {}
